@@ -76,9 +76,11 @@ INTEGRATION_FLOWS = {
     'drift_deposit': dict(fn=r'drift::deposit::drift_deposit$', kinds=['FailsIfPausedOrReduceState'], ops=['deposit_no_repay'], health=None, disabled=True, acct='marginfi_account'),
     'kamino_withdraw': dict(fn=r'kamino::withdraw::kamino_withdraw$', kinds=['FailsInPausedState'], ops=['withdraw', 'withdraw_all'], health='unless-receivership', disabled=True, acct='marginfi_account'),
     'solend_withdraw': dict(fn=r'solend::withdraw::solend_withdraw$', kinds=['FailsInPausedState'], ops=['withdraw', 'withdraw_all'], health='unless-receivership', disabled=True, acct='marginfi_account'),
+    'drift_withdraw': dict(fn=r'drift::withdraw::drift_withdraw$', kinds=['FailsInPausedState'], ops=['withdraw', 'withdraw_all'], health='unless-receivership', disabled=True, acct='marginfi_account'),
 }
 INTEGRATION_OPAQUE = [r'cpi::', r'Cpi', r'accessor::amount$', r'get_withdraw_token_amount$', r'get_scaled_balance_(de|in)crement$', r'MinimalSpotMarket', r'MinimalUser', r'MinimalReserve', r'MinimalObligation',
-                      r'liquidity_to_collateral$', r'collateral_to_liquidity', r'assert_within_one_token$', r'cpi_\w+$']
+                      r'liquidity_to_collateral$', r'collateral_to_liquidity', r'assert_within_one_token$', r'cpi_\w+$',
+                      r'DriftWithdraw[^:]*>::\w+$']      # the Drift withdraw's own CPI helper methods (their bodies made the handler explode: > 50 min; opaque: 13 s)
 FLOWS.update(INTEGRATION_FLOWS)
 
 SHARE_READERS = r'socialize_loss$|get_liability_amount$|get_asset_amount$|get_remaining_deposit_capacity$'
